@@ -20,6 +20,7 @@ type c06Cfg struct {
 	source     string // stop | shutdown
 	manual     bool   // the process is disabled in the configuration and started by hand
 	ordered    bool   // ordered shutdown
+	second     string // a second request (stop | shutdown) issued while the process is Terminating after the first
 }
 
 func (c c06Cfg) id() string {
@@ -29,6 +30,9 @@ func (c c06Cfg) id() string {
 	}
 	if c.ordered {
 		s += "-ordered"
+	}
+	if c.second != "" {
+		s += "-then-" + c.second
 	}
 	return s
 }
@@ -59,6 +63,15 @@ func c06Scenarios(tier string) []*Scenario {
 						scs = append(scs, c06Scenario(c06Cfg{sig: 0, parentOnly: po, timeout: to, cmd: cmd, react: react, source: source}))
 					}
 				}
+			}
+		}
+	}
+	// a second stop request, or the project shutdown, while the process ignores the first request's signal: the
+	// SIGKILL owed to the first request still comes when its time-out expires
+	for _, second := range []string{"stop", "shutdown"} {
+		for _, react := range []string{"die", "ignore"} {
+			for _, sg := range []int{0, 2} {
+				scs = append(scs, c06Scenario(c06Cfg{sig: sg, timeout: 2, react: react, source: "stop", second: second}))
 			}
 		}
 	}
@@ -168,6 +181,16 @@ func c06Scenario(c c06Cfg) *Scenario {
 		sc.Procs["x"] = &ProcScript{}
 		aUp := func(w *World) bool { return w.launches["a#0"] > 0 }
 		sc.API = [][]APICall{{{Op: "start", Name: "a", When: launched}, {Op: "shutdown", When: aUp}}}
+	}
+	if c.second != "" {
+		// a second request while the first one's signal is being ignored and its kill timer is running
+		terminating := func(w *World) bool { return w.lastStat["a"] == "Terminating" }
+		// (from a second client: the first request is still waiting for its time-out)
+		if c.second == "stop" {
+			sc.API = append(sc.API, []APICall{{Op: "stop", Name: "a", When: terminating}})
+		} else {
+			sc.API = append(sc.API, []APICall{{Op: "shutdown", When: terminating}})
+		}
 	}
 	if c.cmd == "ok-noeffect" {
 		// the natural exit may only happen after the stop was requested
